@@ -22,10 +22,14 @@ fn main() {
         match args[i].as_str() {
             "--tier" => {
                 tier = args[i + 1].clone();
+                rest.push("--tier".into());
+                rest.push(args[i + 1].clone());
                 i += 1;
             }
             "--seed" => {
                 seed = args[i + 1].parse().unwrap_or(0);
+                rest.push("--seed".into());
+                rest.push(args[i + 1].clone());
                 i += 1;
             }
             "--replay" => {
@@ -56,6 +60,9 @@ fn main() {
     // internal worker entry points
     if cmd == "c04-worker" {
         std::process::exit(xtv::c04::worker_main(&rest));
+    }
+    if cmd == "c07-enum" {
+        std::process::exit(xtv::c07::enum_main(&rest));
     }
     if cmd == "c05-mem" {
         std::process::exit(xtv::c05::mem_main(&rest));
